@@ -85,10 +85,10 @@ def run(chk):
             if kind.endswith("mid"):
                 leafsecs[2], leafsecs[3] = leafsecs[0], leafsecs[1]
             # the secret of each ground leaf must stay with its script: recompute by key
-            keys = [btc.xonly_pubkey(sk)[0] for sk in leafsecs]
+            orig = list(leafsecs)
             for j, sc in enumerate(found):
                 scripts[pos + j] = sc
-                leafsecs[pos + j] = [sk for sk in leafsecs if btc.xonly_pubkey(sk)[0] in sc][0]
+                leafsecs[pos + j] = [sk for sk in orig if btc.xonly_pubkey(sk)[0] in sc][0]
         if kind == "with-args":
             # OP_SHA256 <h> OP_EQUALVERIFY <key> OP_CHECKSIG : witness = signature, preimage
             for q_ in range(n):
